@@ -20,7 +20,7 @@
  *   list <fmt>                bsdtar -cf - | bsdtar -tf -  -> "L rc=<a>,<b>|<name>|..."
  *   xcmp <fmt> <uid>          xattr round trip (pax/xar)   -> "X <same|diff:<path>|nosup>"
  *
- * snapshot entry: <path> <type> <mode8> <sec>.<nsec> <group> <size> <content> <extents> <target>
+ * snapshot entry: <path> <type> <mode8> <sec>.<nsec>|NOW <group> <size> <content> <extents> <target>
  *   group: index (in the sorted snapshot) of the first name of the same inode, "-" for directories
  *   content: ok | BAD@<offset> | ? (no such file in the source description)
  */
@@ -30,6 +30,8 @@
 #include <sys/stat.h>
 #include <sys/xattr.h>
 #include <grp.h>
+#include <time.h>
+#include <locale.h>
 #include <archive.h>
 #include <archive_entry.h>
 
@@ -47,6 +49,17 @@ static char base[512], src[600];
 static int seq, nextra, xattr_ok = 1;
 static long blk = 4096;
 static char bindir[512];
+static time_t t0;
+
+/* a timestamp taken from the clock during this case is not an archived value */
+static const char *show_time(long long sec, long nsec)
+{
+	static char b[4][64]; static int k;
+	char *r = b[k++ & 3];
+	if (sec >= (long long)t0 - 5 && sec <= (long long)t0 + 7200) snprintf(r, 64, "NOW");
+	else snprintf(r, 64, "%lld.%ld", sec, nsec);
+	return r;
+}
 
 static unsigned char genbyte(uint64_t seed, int64_t off)
 {
@@ -194,8 +207,8 @@ static void snapshot(const char *root)
 			for (int j = 0; j <= i; j++)
 				if (SN[j].st.st_dev == s->st.st_dev && SN[j].st.st_ino == s->st.st_ino && !S_ISDIR(SN[j].st.st_mode)) { g = j; break; }
 		putchar('|'); vh_puthex(s->path, strlen(s->path));
-		printf(" %c %o %lld.%ld ", tchar(s->st.st_mode), (unsigned)(s->st.st_mode & 07777),
-		    (long long)s->st.st_mtim.tv_sec, (long)s->st.st_mtim.tv_nsec);
+		printf(" %c %o %s ", tchar(s->st.st_mode), (unsigned)(s->st.st_mode & 07777),
+		    show_time((long long)s->st.st_mtim.tv_sec, (long)s->st.st_mtim.tv_nsec));
 		if (g < 0) printf("-"); else printf("%d", g);
 		printf(" %lld %s %s ", (long long)(S_ISREG(s->st.st_mode) ? s->st.st_size : 0), s->content, s->ext ? s->ext : "-");
 		if (s->target) vh_puthex(s->target, strlen(s->target)); else putchar('-');
@@ -214,7 +227,7 @@ static void t_begin(void)
 	mkdir(base, 0755);
 	snprintf(src, sizeof src, "%s/src", base);
 	mkdir(src, 0755);
-	nn = 0; seq = 0; nextra = 0;
+	nn = 0; seq = 0; nextra = 0; t0 = time(NULL);
 	const char *b = getenv("VERIF_BIN");
 	snprintf(bindir, sizeof bindir, "%s", b ? b : ".");
 	umask(022);
@@ -326,8 +339,8 @@ static void do_walk(void)
 		unsigned ft = archive_entry_filetype(e);
 		fputc('|', o);
 		if (*rel) for (const char *p = rel; *p; p++) fprintf(o, "%02x", (unsigned char)*p); else fputc('-', o);
-		fprintf(o, " %s %o %lld.%ld ", ftname(ft), (unsigned)(archive_entry_mode(e) & 07777),
-		    (long long)archive_entry_mtime(e), archive_entry_mtime_nsec(e));
+		fprintf(o, " %s %o %s ", ftname(ft), (unsigned)(archive_entry_mode(e) & 07777),
+		    show_time((long long)archive_entry_mtime(e), archive_entry_mtime_nsec(e)));
 		if (ft == AE_IFDIR) fprintf(o, "- -");
 		else {
 			int g = -1;
@@ -806,5 +819,6 @@ static void t_op(char *line)
 int main(int argc, char **argv)
 {
 	struct vh_engine e = { t_begin, t_op, t_end };
+	setlocale(LC_ALL, "");     /* as bsdtar/bsdcpio do: pathnames are converted from the locale's charset */
 	return vh_main(argc, argv, &e);
 }
